@@ -949,12 +949,6 @@ fn check_if_else(
     expr::IfElseCondition::Guard(p, expr) => {
       let expr = type_check_expression(cx, expr, type_hint::MISSING);
       let (pattern, abstract_pattern_node) = check_matching_pattern(cx, p, false, expr.type_());
-      #[cfg(samlang_verif)]
-      crate::verif_hooks_c07::record(
-        p.loc().start.0,
-        "iflet",
-        std::slice::from_ref(&abstract_pattern_node),
-      );
       if !pattern_matching::is_additional_pattern_useful(
         cx,
         &[abstract_pattern_node],
@@ -1010,8 +1004,6 @@ fn check_match(
       ending_associated_comments: *ending_associated_comments,
     });
   }
-  #[cfg(samlang_verif)]
-  crate::verif_hooks_c07::record(expression.common.loc.start.0, "match", &abstract_pattern_nodes);
   if let Some(description) =
     pattern_matching::incomplete_counterexample(cx, &abstract_pattern_nodes)
   {
@@ -1563,12 +1555,6 @@ fn check_declaration_statement(
   }
   let (checked_pattern, abstract_pattern_node) =
     check_matching_pattern(cx, pattern, true, checked_assigned_expr_type);
-  #[cfg(samlang_verif)]
-  crate::verif_hooks_c07::record(
-    pattern.loc().start.0,
-    "let",
-    std::slice::from_ref(&abstract_pattern_node),
-  );
   if let Some(description) =
     pattern_matching::incomplete_counterexample(cx, &[abstract_pattern_node])
   {
